@@ -19,6 +19,7 @@ class Sc (α : Type) extends Add α, Sub α, Mul α, Div α, Neg α, Zero α, On
   gtReal : α → Float → Bool
   sqrtRe : α → Float
   ofFloat : Float → α
+  isZ : α → Bool
 
 instance : Sc Float where
   dec l := some l
@@ -27,6 +28,7 @@ instance : Sc Float where
   gtReal s t := decide (t < s)
   sqrtRe s := Float.sqrt s
   ofFloat x := x
+  isZ x := x == 0
 
 def decCx : List Float → Option (List (Cx Float))
   | [] => some []
@@ -44,6 +46,7 @@ instance : Sc (Cx Float) where
   -- real part of the principal square root
   sqrtRe z := Float.sqrt ((Float.sqrt (z.re * z.re + z.im * z.im) + z.re) / 2)
   ofFloat x := ⟨x, 0⟩
+  isZ z := z.re == 0 && z.im == 0
 
 section generic
 variable {α : Type} [Sc α]
@@ -52,7 +55,7 @@ def fnorm (v : FVec α) : Float := Float.sqrt (v.d.foldl (fun s x => s + Sc.absS
 def lnorm (l : List α) : Float := Float.sqrt (l.foldl (fun s x => s + Sc.absSq x) 0)
 
 def fops : CGOps α Float (FVec α) :=
-  { inner := FVec.inner, norm := fnorm, gtReal := Sc.gtReal, sqrtRe := Sc.sqrtRe }
+  { inner := FVec.inner, norm := fnorm, gtReal := Sc.gtReal, sqrtRe := Sc.sqrtRe, isZero := Sc.isZ }
 
 def jV (l : List α) : Json := jFs (Sc.enc l)
 
